@@ -20,8 +20,16 @@ theorem quorum_constants :
     votesThreshold = 66 ∧ votesDivisor = 100 ∧ tallyCmp = .lt ∧ tallyTotalFromStore = true ∧ tallySkipsUnregistered = true := by
   decide
 
+/-- where the two sides of the comparison come from: the tally adds exactly `GetPower()` of every found voter, the recorded
+total is the sum of `GetPower()` over the ONLINE oracles, and `GetPower` is the truncating quotient
+`DelegateAmount / DefaultPowerReduction` — the same unit on both sides (`Oracle.power`, `onlinePower`, `votePower`) -/
+theorem quorum_power_sources :
+    tallyAddsGetPower = true ∧ totalSumsOnlineGetPower = true ∧ getPowerTruncates = true ∧ 0 < powerReduction := by decide
+
+/-- the expression read off `TryAttestation` (helpers inlined) evaluates to `66 * total / 100` for EVERY total: multiply
+first, then truncate — e.g. `(total / 100) * 66` does not satisfy this -/
 theorem required_eq (total : Nat) : required total = 66 * total / 100 := by
-  simp [required, votesThreshold, votesDivisor]
+  simp [required, requiredExpr, QExpr.eval, votesThreshold]
 
 /-! ## 1. observed ⇒ quorum of the voters of that very attestation -/
 
@@ -67,10 +75,10 @@ theorem observed_only_by_claim (s : State) (op : Op) (hop : ∀ w i n h k e, op 
   | unbond o u bal d => exact core_atts (unbond_core s o u bal d)
   | gov l d => exact core_atts (gov_core s l d).1
   | endBlock l r => exact core_atts (endBlock_core s l r).1
-  | exec n f =>
-    simp only [step]; unfold execStep
-    repeat' split
-    all_goals rfl
+  | exec n o c =>
+    simp only [step]
+    obtain ⟨P, L, h⟩ := exec_frame s n o c
+    rw [h]
 
 /-- power of the DISTINCT registered voters of a vote list -/
 def distinctPower (m : Map Oracle) (votes : List Nat) : Nat := votePower m (dedup votes)
@@ -96,7 +104,18 @@ theorem observed_quorum_distinct_partial (p : Params) (ops : List Op) (hops : No
   · exact absurd h1 hnew
   · exact ⟨hnd, by rw [distinctPower, dedup_of_nodup hnd]; exact h4⟩
 
-/-- The full-strength statement (distinct voters reach the quorum in EVERY history) is FALSE of the code as it is: after
+/-- FULL STRENGTH (no hypothesis on the history; holds because the extractor reads that `UnbondedOracle` keeps
+`LastEventNonceByOracle`).  For EVERY history and every claim: the attestation the claim newly marks observed has a
+duplicate-free vote list and its DISTINCT registered voters hold at least `66 * lastTotalPower / 100`. -/
+theorem observed_quorum_distinct (p : Params) (ops : List Op)
+    (w i n h : Nat) (k : Kind) (e : Nat) (a' : Att)
+    (ha : a' ∈ (step (reach p ops) (.claim w i n h k e)).1.atts) (hob : a'.observed = true)
+    (hnew : ¬ ∃ b ∈ (reach p ops).atts, b.observed = true ∧ b.nonce = a'.nonce ∧ b.hash = a'.hash) :
+    a'.votes.Nodup ∧ 66 * (reach p ops).lastTotalPower / 100 ≤ distinctPower (reach p ops).oracles a'.votes :=
+  observed_quorum_distinct_partial p ops (Or.inl (by decide)) w i n h k e a' ha hob hnew
+
+/-- The full-strength statement (distinct voters reach the quorum in EVERY history) is FALSE of a tree whose
+`UnbondedOracle` deletes the per-oracle last nonce (the pinned commit before the repair): after
 `rebondWitness` the event of nonce 1 is observed although its only voter holds power 25 < 36 = 66·55/100 — its vote is
 in the list twice (replayed on the real app: `corpus/C02/h_rebond_double_count.ops`). -/
 theorem observed_quorum_distinct_false (hdel : unbondDeletesLastNonce = true) :
@@ -122,17 +141,36 @@ theorem required_ge_live (p : Params) (ops : List Op) :
     66 * onlinePower (reach p ops).oracles / 100 ≤ 66 * (reach p ops).lastTotalPower / 100 :=
   Nat.div_le_div_right (Nat.mul_le_mul_left _ (total_ge_online p ops))
 
+/-- the property's last clause in one statement: for EVERY history and every claim, the attestation the claim newly marks
+observed carries DISTINCT registered voters holding at least 66 % (truncated) of the combined power of the oracles that
+are online at that moment -/
+theorem observed_implies_live_quorum (p : Params) (ops : List Op) (w i n h : Nat) (k : Kind) (e : Nat) (a' : Att)
+    (ha : a' ∈ (step (reach p ops) (.claim w i n h k e)).1.atts) (hob : a'.observed = true)
+    (hnew : ¬ ∃ b ∈ (reach p ops).atts, b.observed = true ∧ b.nonce = a'.nonce ∧ b.hash = a'.hash) :
+    66 * onlinePower (reach p ops).oracles / 100 ≤ distinctPower (reach p ops).oracles a'.votes :=
+  Nat.le_trans (required_ge_live p ops) (observed_quorum_distinct p ops w i n h k e a' ha hob hnew).2
+
 /-- where the total is refreshed: right after a successful bond / add-delegate, and after an end block that slashed or
 stored an oracle set, it EQUALS the online power; a governance oracle update does not refresh it -/
 theorem refresh_sites :
     refreshOnBond = true ∧ refreshOnAddDelegate = true ∧ refreshOnSlash = true ∧ refreshOnOracleSetRequest = true ∧
-    refreshOnGovUpdate = false := by decide
+    refreshOnGovUpdate = false ∧ bondRefreshRule = .afterStore ∧ addDelegateRefreshRule = .afterStore := by decide
+
+/-- a successful add-delegate — in particular one that only pays the slash amount and brings a slashed oracle back online
+without moving any stake — leaves the recorded total EQUAL to the online power -/
+theorem addDelegate_refreshes (s : State) (o a : Nat) (d : Bool) (hok : (step s (.addDelegate o a d)).2 = .ok) :
+    (step s (.addDelegate o a d)).1.lastTotalPower = onlinePower (step s (.addDelegate o a d)).1.oracles := by
+  have hr : addDelegateRefreshRule = .afterStore := by decide
+  simp only [step] at hok ⊢; unfold addDelegateStep addDelegateTo at hok ⊢
+  repeat' split
+  all_goals simp_all [refresh, applyRefresh]
 
 theorem bond_refreshes (s : State) (o b e a : Nat) (d : Bool) (hok : (step s (.bond o b e a d)).2 = .ok) :
     (step s (.bond o b e a d)).1.lastTotalPower = onlinePower (step s (.bond o b e a d)).1.oracles := by
+  have hr : bondRefreshRule = .afterStore := by decide
   simp only [step] at hok ⊢; unfold bondStep at hok ⊢
   repeat' split
-  all_goals simp_all [refresh, refreshOnBond]
+  all_goals simp_all [refresh, applyRefresh]
 
 theorem endBlock_refreshes (s : State) (l : List Nat) (r : Bool) (h : l ≠ [] ∨ r = true) :
     (step s (.endBlock l r)).1.lastTotalPower = onlinePower (step s (.endBlock l r)).1.oracles := by
@@ -154,6 +192,10 @@ theorem vote_requires_online_bridger (s : State) (w i n h : Nat) (k : Kind) (e :
   simp only [step] at hok ⊢
   obtain ⟨a, orc, h1, h2, h3, _, _, _, heq⟩ := claim_ok s w i n h k hok
   exact ⟨a, orc, h1, h2, h3, by rw [heq, attest_lastNonce]; exact get_set_self _ _ _⟩
+
+/-- `EditBridger` deletes the index entry of the OLD bridger before it overwrites the record's bridger (the order the
+index invariant behind `voter_is_registered_bridger` depends on) -/
+theorem edit_bridger_order : editBridgerDeletesOldIndexFirst = true := by decide
 
 /-- in every reachable state the bridger index is consistent with the registry, so the accepted claim's bridger is THE
 bridger registered in the record of the online oracle whose vote is recorded -/
